@@ -28,6 +28,7 @@ func emitRest(dir string, t *Tables) {
 	emitBuild(dir, thePkg)
 	emitCreate(dir, thePkg)
 	emitClBuild(dir, thePkg)
+	emitReader(dir, thePkg)
 	emitEffects(dir, thePkg)
 	emitSchema(dir, thePkg, theRepo)
 	emitRules(dir, t)
